@@ -1042,7 +1042,10 @@ class Bench:
             nv, info = W.model.dilute(pre, solute, conc, solvent, new_name)
             if info.get('margin_rel') is not None and info['margin_rel'] < F(2, 100):
                 status = 'dont_care'
-            if info['margin_cap'] is not None and info['margin_cap'] < self.band_cap(nv) + abs(info['added']) * W.msubs[solvent].per_amount('L') * F(1, 10 ** 6):
+            # how much solvent is needed is known only as well as the target is (the library rounds the parsed target to
+            # p decimals in base units: for a trace solute that is a per-mille matter): 3 * cond of the final volume
+            if info['margin_cap'] is not None and info['margin_cap'] < self.band_cap(nv) + abs(info['added']) * W.msubs[solvent].per_amount('L') * F(1, 10 ** 6) \
+                    + 3 * cond * W.model.volume(nv):
                 status = 'dont_care'
         except M.Refuse as r:
             status = 'must_refuse'
@@ -1051,7 +1054,7 @@ class Bench:
             if r.margin is not None and r.reason == 'higher than current' and -r.margin < F(2, 100):
                 status = 'dont_care'
             if r.margin is not None and r.reason == 'exceeds capacity':
-                status = 'must_refuse' if -r.margin > F(1, 10 ** 4) * (pre.cap or 1) else 'dont_care'
+                status = 'must_refuse' if -r.margin > (F(1, 10 ** 4) + 3 * cond) * (pre.cap or 1) else 'dont_care'
         coarse = ill and status == 'must_accept' and cond < F(1, 10)
         if ill and status != 'dont_care':
             status = 'dont_care'
